@@ -12,7 +12,7 @@ from ..interp import Interp, Sc, Ag, Ar, Un, Rf
 from ..entry import entry_args
 from ..models import find_impl
 from ..report import Check, fn_subject
-from .. import harness as H, automata as A, seq
+from .. import harness as H, automata as A, seq, view
 from .common import load_configs, guarded, TRUSTED
 from . import c06, c09, scanners
 
@@ -22,12 +22,11 @@ CH, MSB, VAL = T.T('m.channel', 'u8'), T.T('m.msb', 'u8'), T.T('m.value', 'u16')
 
 
 def cc14_value(F, roles, ch, msb, val):
-    I = Interp(F, assume_invariants=False)
-    st = I.new_state()
-    v = I.top_of(st, H.adt_ty(CC14), 'x')
-    for role, term, ty in (('channel', ch, 'u8'), ('msb_controller_number', msb, 'u8'), ('value', val, 'u16')):
-        v = invariants.set_path(v, roles[(CC14, role)], Sc(term, H.INT(ty)))
-    return v
+    return view.build_cc14(F, ch, msb, val, {ch: VS(0, 15), msb: VS(0, 31), val: VS(0, 16383)})
+
+
+def role_of(F, v, role, st):
+    return view.role_value(F, v, role, st.cons, st.ntok)
 
 
 def new_clause(chk, F, roles):
@@ -50,7 +49,7 @@ def new_clause(chk, F, roles):
                 ret = ret.join(v)
                 want = {'channel': H.scalar_of(args[0]).term, 'msb_controller_number': tok, 'value': H.scalar_of(args[2]).term}
                 for role, wt in want.items():
-                    g = H.scalar_of(A.get_path(o.value, roles[(CC14, role)]))
+                    g = H.scalar_of(role_of(F, o.value, role, o.st))
                     if g is None or g.term != wt:
                         status, why = 'refuted', 'field %s is %r' % (role, g)
             elif o.kind == 'panic':
@@ -141,7 +140,7 @@ def encoder_clause(chk, F, roles):
 
 def inversion_clause(chk, F, roles):
     cfg = F.cfg
-    model, spec, P = scanners.product(F, 'cc14')
+    model, spec, P, allp = scanners.product(F, 'cc14')
     n = 0
     for key in P.order:
         cs, ss, cons0, label = P.pairs[key]
@@ -149,7 +148,7 @@ def inversion_clause(chk, F, roles):
 
         def ev(cs=cs, cons0=cons0, okey=okey):
             cons = dict(cons0)
-            cons.update({CH: VS(0, 15), MSB: VS(0, 31), VAL: VS(0, 16383)})
+            cons.update({CH: VS.one(0), MSB: VS(0, 31), VAL: VS(0, 16383)})
             msgs = encoder_terms(cons)
             paths = seq.run_sequence(F, model, P.roles, cs, cons, [('feed',) + msgs[0], ('feed',) + msgs[1]])
             status, why = 'proved', ''
@@ -198,7 +197,7 @@ def shorthand_clause(chk, F, roles):
             if o.kind == 'return':
                 acc = [x.join(v) for x, v in zip(acc, vs)]
                 for role, a in zip(('channel', 'msb_controller_number', 'value'), args):
-                    g = H.scalar_of(A.get_path(o.value, roles[(CC14, role)]))
+                    g = H.scalar_of(role_of(F, o.value, role, o.st))
                     if g is None or g.term != a.term:
                         status, why = 'refuted', 'field %s is %r' % (role, g)
                 if any(not v.subset(w) for v, w in zip(vs, want)):
@@ -228,9 +227,12 @@ def run(tier, cmd):
     Fs = load_configs(chk, ['K1', 'K2'], required=('K1',))
     for cfg, F in sorted(Fs.items()):
         roles = A.msg_roles(F)
-        miss = [k[1] for k, v in roles.items() if k[0] == CC14 and v is None]
+        computed = [k[1] for k, v in roles.items() if k[0] == CC14 and v is None]
+        miss = [n for n in view.ACCESSORS[CC14] if CC14 + '::' + n not in F.fns]
         chk.ob('%s/accessors/%s' % (PID, cfg), 'accessor', 'proved' if not miss else 'refuted',
-               expected='channel / msb_controller_number / value return one stored field each', found=miss or 'all located')
+               expected='channel / msb_controller_number / value exist; what they return is decided by the new() clause',
+               found=('missing: %s' % miss) if miss else ('stored fields returned as they are' if not computed else 'computed from the representation: %s' % sorted(computed)),
+               nontrivial=False)
         if miss:
             continue
         new_clause(chk, F, roles)
